@@ -46,7 +46,7 @@ ASSUMPTIONS = ["process time zone pinned to TZ=UTC for the run: GetTimeAsStringM
 RULE = ("G: get_tm (gmtime_r) of EVERY day 1970-01-01..2099-12-31 against civil_of_days, every run; "
         "T: instants (second of day x millisecond from {0,1,43199,43200,86399} x {0,1,499,500,999}): quick = one on every "
         "9th day, two on each leap day/month end/year end, all 25 on 1970-01-01, 2000-02-29, 2038-01-19, 2099-12-31...; "
-        "thorough = five on EVERY day (rotating: 5 consecutive days cover all 25) and all 25 on the special days; always "
+        "thorough = three on EVERY day (rotating: 9 consecutive days cover all 25) and all 25 on the special days; always "
         "the seconds around 2^31, random nanosecond instants, a few outside the range; "
         "P: valid texts of every field type (17/21 and 8/12 character forms, 6/8 MonthYear) plus malformed ones (wrong "
         "length, non-digits, bytes >= 0x80, month 00/13/14, truncated); L: precisions 0..9 on instants with nsec in "
@@ -144,11 +144,11 @@ def gen_T(rng, tier):
     rot = rng.randrange(25)
     special = special_days()
     if thorough:
-        # every day with five of the 25 (second, millisecond) combinations, rotating so that any five
+        # every day with three of the 25 (second, millisecond) combinations, rotating so that any nine
         # consecutive days cover all 25; all 25 on the special days
         for d in range(DAYS):
-            for j in range(5):
-                s, m = COMBOS[(d * 5 + j + rot) % 25]
+            for j in range(3):
+                s, m = COMBOS[(d * 3 + j + rot) % 25]
                 cs.append(T(d * DAY_NS + s * NS + m * 10 ** 6, "every-day"))
         for d in special:
             for (s, m) in COMBOS:
